@@ -773,16 +773,61 @@ const DIRECTED: [&str; 44] = [
 const DIRECTED_HEADWORD: [&str; 12] = ["東京に18", "8", "８", "８７", "88円", "３", "1８2", "六", "六8", "京都に７８３円", "8.5", "二十８"];
 
 pub fn run(args: &Args) {
-    let mut sink = Sink::new("C14", &args.out, &["Model.Rewrite"], args.seed, &args.tier);
+    let mut sink = Sink::new("C14", &args.out, &["Model.Rewrite", "Model.PosLookup"], args.seed, &args.tier);
     sink.shard_size = 60;
     sink.rule("the same text analysed with one dictionary (tests/resources/lex.csv + numeral units, separators, katakana words; resources/char.def or tests/resources/char.def) without path-rewrite plugins and with a plugin chain; a second lexicon makes 4 / 四 / 9 / 億 common nouns, leaves ',' and '.' out (OOV separators inside numeral runs) and gives katakana words other parts of speech; every morpheme's reported surface()/begin()/end() must be the covered text, a merged one the union / concatenation of its parts, with the part of speech and OOV flag of the plugin that can have made the merge (JoinNumeric enableNormalize true / false / key absent (= true), JoinKatakanaOov minLength 0/1/2/3/4/5/9, five OOV parts of speech of the lexicon incl. two with `*` in front of a specified level whose family has an earlier member in the grammar's table (ids by exact six-component comparison, not by Grammar::get_part_of_speech_id), and ones that differ from the part of speech of the katakana dictionary words (runs joined only because of minLength), both orders, each alone; `upos-` configurations whose oovPOS is a USER-DEFINED part of speech that only an OOV provider with userPOS=allow introduces (Simple / Regex / MeCab through unk.def): they must load with the path-rewrite plugins whenever they load without, and merged tokens carry that part of speech); texts are concatenations of katakana dictionary words / katakana OOV pieces (incl. NOOOVBOW ァ) / digits, kanji digits, units, separators, well-formed and malformed numerals / other words, the empty text, every piece alone and between blanks (paths of 0 / 1 / 2 tokens), pairs of pieces; directed sequences first (separators at text edges, numerals next to katakana runs); Coq model of both loops run on the plugin-free path must equal the result with plugins and grouping_ok must hold on it; a Rust oracle re-checks boundary subset, union range, concatenated surface, prescribed part of speech, unchanged rest; non-trivial = at least one merge; extra stream with the NFKC input-text plugin (oracle only); numeral-class words whose headword does not have the byte length of their key (full-width / kanji / ASCII headword for a key written otherwise) in both lexicons, directed and as pieces; every case additionally with the word-info fields restricted (StatefulTokenizer::set_subset: POS_ID; POS_ID|NORMALIZED_FORM; +READING_FORM; POS_ID|SPLIT_A|SPLIT_B - none loads the surface): with plugins the analysis succeeds whenever it succeeds without, covers the text, boundaries are a subset");
     let mut vs = variants(&args.work);
     // user-defined parts of speech introduced by OOV providers (both lexicons' katakana words are dictionary words there too)
     let upos_dic = compile_system(&format!("{}{}{}{}", EXTRA_ROWS, attr_rows(46, 47, 55, 56), HEADWORD_ROWS, FAMILY_ROWS));
     vs.extend(user_pos_variants(&mut sink, &args.work, &upos_dic));
+    // Grammar::get_part_of_speech_id against Model/PosLookup.v: the POS table of every distinct grammar, every part of speech the
+    // stacks configure (incl. those with `*` in front of a specified level and the user-defined ones), requests that are no row
+    // and requests of another length
+    if args.replay.is_none() {
+        let mut seen: Vec<usize> = vec![];
+        for v in vs.iter() {
+            let g = v.base.grammar();
+            if seen.contains(&g.pos_list.len()) && !v.name.starts_with("upos-") {
+                continue;
+            }
+            seen.push(g.pos_list.len());
+            let cstr = |x: &str| format!("\"{}\"%string", x.replace('"', "\"\""));
+            let tbl = clist(g.pos_list.iter().map(|row| clist(row.iter().map(|c| cstr(c)))));
+            let mut reqs: Vec<Vec<&str>> = OOV_POS.iter().map(|p| p.to_vec()).collect();
+            reqs.push(NUM_POS.to_vec());
+            reqs.push(vec!["動詞", "非自立可能", "*", "*", "五段-カ行", "*"]);
+            reqs.push(vec!["動詞", "*", "*", "*", "*", "*"]);
+            reqs.push(vec!["名詞", "数詞", "*", "*", "*"]);
+            reqs.push(vec!["*", "*", "*", "*", "*", "*"]);
+            for r in reqs {
+                let got = g.get_part_of_speech_id(&r);
+                let term = format!("check_pos_lookup {} {} {}", tbl, clist(r.iter().map(|c| cstr(c))), copt(got.map(|i| format!("{}%nat", i))));
+                let id = sink.case(term, json!({"kind": "pos_lookup", "variant": v.name, "request": r, "answer": got}), true);
+                sink.tag("pos_lookup");
+                let want = if r.len() == 6 { exact_pos_id(&v.base, &r) } else { None };
+                if got != want {
+                    sink.fail(id, &format!("Grammar::get_part_of_speech_id({:?}) = {:?} = {:?}; the first row equal to the request is {:?}", r, got, got.map(|i| g.pos_list[i as usize].clone()), want), "");
+                }
+            }
+        }
+    }
     if let Some(p) = &args.replay {
         let r: Value = serde_json::from_str(&std::fs::read_to_string(p).unwrap()).unwrap();
         let c = &r["case"];
+        if c["kind"] == "pos_lookup" {
+            let name = c["variant"].as_str().unwrap();
+            let v = vs.iter().find(|v| v.name == name).expect("variant of the replay exists");
+            let r: Vec<String> = c["request"].as_array().unwrap().iter().map(|x| x.as_str().unwrap().to_string()).collect();
+            let got = v.base.grammar().get_part_of_speech_id(&r);
+            println!("POS table: {:?}\nrequest {:?} -> {:?}", v.base.grammar().pos_list, r, got);
+            let rr: Vec<&str> = r.iter().map(|x| x.as_str()).collect();
+            let id = sink.case_rust_only(c.clone(), true);
+            if got != (if r.len() == 6 { exact_pos_id(&v.base, &rr) } else { None }) {
+                sink.fail(id, &format!("Grammar::get_part_of_speech_id({:?}) = {:?}, not the first row equal to the request", r, got), "");
+            }
+            sink.finish();
+            return;
+        }
         if c["kind"] == "rewrite_load" {
             // the configurations were loaded (and failures reported) above
             sink.finish();
